@@ -407,6 +407,66 @@ def check_tables(ctx, db, config):
         ctx.ok('R3', 'lossy decoder: 4 continuation-byte checks (byte & 0xC0 == 0x80): 1 + 1 + 2 for widths 2, 3, 4', 'branch conditions in MIR')
     else:
         ctx.violation('R3', 'Utf8LossyChunksIter::next', 'continuation-checks', 'expected 4 continuation-byte checks (b & 192 == 128) in the decoder, found %d' % len(conts))
+    # cursor discipline (std): a chunk that ends in an error is source[i_..E] where E is the index of the byte whose check
+    # failed -- the offending byte is NOT consumed and is examined again as the start of the next sequence
+    g = db.cfg(b)
+    own = [e for e in r.events if len(e.stack) == 1]
+    probes = {}      # block -> index term of the safe_get it calls
+    for e in own:
+        if e.kind == 'call' and e.callee and e.callee.endswith('::safe_get') and len(e.args) == 2:
+            probes[e.block] = e.args[1]
+    lead = [e for e in own if e.kind == 'call' and e.callee and e.callee.endswith('::unsafe_get') and len(e.args) == 2]
+    exits = []
+    for e in own:
+        if e.kind == 'call' and e.callee and e.callee.endswith('::index') and len(e.args) == 2:
+            a = e.args[1]
+            if a[0] == 'agg' and a[1].endswith('Range') and field_of(a, 'start') != C(0):
+                exits.append((e, field_of(a, 'start'), field_of(a, 'end')))
+    froms = {}
+    for e in own:
+        if e.kind == 'call' and e.callee and e.callee.endswith('::index') and len(e.args) == 2 and e.args[1][0] == 'agg' and e.args[1][1].endswith('RangeFrom'):
+            froms[e.block] = field_of(e.args[1], 'start')
+    bad = []
+    ncur = 0
+    if lead:
+        i0 = lead[0].args[1]
+        for e, st0, en0 in exits:
+            ncur += 1
+            doms = [pb for pb in probes if g.block_dominates(pb, e.block)]
+            # nearest dominating probe = the one dominated by all the others
+            near = [pb for pb in doms if all(g.block_dominates(q, pb) for q in doms)]
+            expect = probes[near[0]] if near else app('add', i0, C(1))
+            if st0 != i0:
+                bad.append((e, 'the broken part must start at the first byte of the sequence'))
+            elif lin(en0) != lin(expect):
+                bad.append((e, 'the broken part must end at the byte whose check failed (%s), it ends at %s' % (show(expect)[:40], show(en0)[:40])))
+            # the remainder starts where the broken part ends
+            rest = [v for bb, v in froms.items() if g.block_dominates(e.block, bb)]
+            if not rest or any(lin(v) != lin(en0) for v in rest):
+                bad.append((e, 'the remaining input must start exactly at the end of the broken part'))
+    ctx.floor('R3', ncur, 7, 'error exits of the lossy decoder')
+    if bad:
+        for e, why in bad:
+            ctx.violation('R3', 'Utf8LossyChunksIter::next', 'cursor:%s' % why.split(' (')[0].replace(' ', '-')[:50], 'lossy decoder deviates from std: %s' % why, e.span)
+    else:
+        ctx.ok('R3', 'lossy decoder: each of the %d error exits yields source[i_..E] with E = index of the byte whose check failed (offending byte re-examined), and continues at E' % ncur, 'nearest dominating byte probe vs slice bounds, linear equality')
+    # successful sequences advance the cursor by exactly their width
+    rec = [v for (bid, h), v in r.loops.items() if bid == b['id']]
+    steps = set()
+    for v in rec:
+        for l, symv in v['sym'].items():
+            if lead and symv == lead[0].args[1]:
+                for stp in v['step']:
+                    vals = [stp['env'].get(l)]
+                    while any(x is not None and x[0] == 'phi' for x in vals):
+                        vals = [y for x in vals for y in ([a for _, a in x[2]] if x is not None and x[0] == 'phi' else [x])]
+                    for x in vals:
+                        d, k = lin(app('sub', x, symv)) if x is not None else ({'?': 1}, 0)
+                        steps.add(k if not d else None)
+    if steps == {1, 2, 3, 4}:
+        ctx.ok('R3', 'lossy decoder: the scan cursor advances by exactly 1, 2, 3 or 4 bytes per accepted sequence', 'loop step of the cursor at the back edges')
+    else:
+        ctx.violation('R3', 'Utf8LossyChunksIter::next', 'cursor-advance', 'accepted sequences must advance the cursor by 1/2/3/4 bytes; found steps %s' % sorted(map(str, steps)))
     # replacement pushed iff broken is non-empty
     lb = string_method(db, 'from_utf8_lossy_in')
     if lb is None:
